@@ -196,3 +196,57 @@ def truth_rule(repo: Repo, rep, prop: str, rule: str, extra_modules: Tuple[str, 
                 probs += always_true_tests(repo, fi, dn)
     rep.check(not probs, rule, '%s:tests-that-cannot-fail' % '+'.join(mods), '', '%d functions, every truth test can fail' % n_f,
               '; '.join(sorted(set(probs))[:6]))
+
+
+# --------------------------------------------------------------------------- socket modes are per socket, not per call
+
+def socket_mode_problems(repo: Repo, modules: Tuple[str, ...] = ('dulprovider', 'fsm', 'asceprovider')) -> Tuple[List[str], int]:
+    """``sock.setblocking(False)`` / ``sock.settimeout(0)`` switch the socket, not the next call: every later ``sendall`` on it --
+    the state machine writes whole PDUs with it -- raises BlockingIOError as soon as the kernel buffer is full (a PDU larger than
+    the free send buffer: a big negotiated maximum, a slow receiver).  A function that makes the transport non-blocking must put
+    it back (``setblocking(True)`` / ``settimeout(None)``) on every path on which it ends; a per-call flag (``MSG_DONTWAIT``)
+    needs nothing.  Decided per function, along each path.  -> (problems, number of mode switches seen)"""
+    from .fsm_model import exc_hierarchy
+    from .sym import SymClient, empty_state
+    hier = exc_hierarchy(repo)
+    probs: List[str] = []
+    n_sw = 0
+
+    def ev(call, callee, client, state):
+        last = callee.rsplit('.', 1)[-1]
+        if last in ('setblocking', 'settimeout') and call.args:
+            return 'mode'
+        return None
+
+    def mode_of(e) -> Optional[str]:
+        a = e.args[0] if e.args else ''
+        last = e.callee.rsplit('.', 1)[-1]
+        if last == 'setblocking':
+            return 'nonblocking' if a in ('False', '0') else 'blocking' if a in ('True', '1') else None
+        if a in ('0', '0.0', 'False'):
+            return 'nonblocking'
+        if a == 'None':
+            return 'blocking'
+        return 'timeout'
+    for fi in repo.all_functions():
+        if fi.module.name not in modules:
+            continue
+        if not any(isinstance(n, ast.Attribute) and n.attr in ('setblocking', 'settimeout') for n in ast.walk(fi.node)):
+            continue
+        c = SymClient(repo, fi, event_of=ev, hierarchy=hier, inline=repo.is_helper)
+        fin = c.final_states(c.run(empty_state()))
+        n_sw += sum(1 for e, s in c.log if e.kind == 'mode')
+        for s, how in fin:
+            cur: Dict[str, Tuple[str, int]] = {}
+            for e in s.trail:
+                if e.kind == 'mode':
+                    m = mode_of(e)
+                    recv = e.callee.rsplit('.', 1)[0]
+                    if m is not None:
+                        cur[recv] = (m, e.line)
+            for recv, (m, line) in cur.items():
+                if m == 'nonblocking' and not recv.startswith('NEW_') and 'socket.socket(' not in recv:
+                    probs.append('%s switches %s to non-blocking mode (line %d) and ends (%s) without switching it back: the mode belongs '
+                                 'to the socket, so the next sendall() of a PDU that does not fit the kernel buffer raises BlockingIOError '
+                                 'after a partial write' % (fi.qualname, recv, line, 'normally' if not how.startswith('raise') else how))
+    return sorted(set(probs)), n_sw
